@@ -40,8 +40,8 @@ static inline void verif_release(std::vector<T> &v) {
   v._M_impl._M_start = nullptr; v._M_impl._M_finish = nullptr; v._M_impl._M_end_of_storage = nullptr;
 }
 #endif
-// fill a buffer with symbolic bytes
-static inline void verif_fill(void *p, size_t n) {
+// fill a buffer with symbolic bytes (kept out of line so that its loop has a stable name for --unwindset)
+extern "C" __attribute__((noinline)) inline void verif_fill(void *p, size_t n) {
   uint8_t *b = (uint8_t *)p;
   for (size_t i = 0; i < n; ++i) b[i] = nondet_u8();
 }
